@@ -149,7 +149,7 @@ impl Prop for P {
                 let flags = TINFL_FLAG_PARSE_ZLIB_HEADER | if *compute_flag { TINFL_FLAG_COMPUTE_ADLER32 } else { 0 };
                 let mut d = DecompressorOxide::new();
                 let mut ncalls = 0;
-                let r = drive(&mut d, &s, &DriveOpts { flags, mode, sched, canary: false, max_calls: None, announce: true, flat_start: 0 }, |d, info| {
+                let r = drive(&mut d, &s, &DriveOpts { flags, mode, sched, canary: false, max_calls: None, announce: true, flat_start: 0, probe_full_ring: false }, |d, info| {
                     ncalls += 1;
                     // None until the header has been read
                     if let Some(a) = d.adler32() {
